@@ -222,6 +222,20 @@ def run(tier, seed):
     tasks += [(s, 'client') for s in cl]
     st = par.pmap(work, tasks, chunk=2)
     par.pmap(work_builtin, builtin_tasks(), stats=st, chunk=4)
+    vcases = []
+    for spec in H.pick(ps, seed, 6 if tier == 'quick' else 30):
+        path = H.tmp_path('c05-val-%d.policy' % len(vcases))
+        if os.path.exists(path):
+            os.unlink(path)
+        r0 = audit(spec, 'server', ['-M', path])
+        if r0.status != 0:
+            continue
+        vcases.append({'label': 'same %s' % spec['kn'], 'opts': ['-n', '-P', path, '-j'], 'make': (lambda spec=spec: make_server(spec))})
+        pert = perturbations(spec, 'server')
+        for kind, field, s2 in H.pick(pert, seed, 2):
+            vcases.append({'label': 'drift %s %s' % (spec['kn'], kind), 'opts': ['-n', '-P', path], 'make': (lambda s2=s2: make_server(s2))})
+    BP = runner.M['builtin_policies'].BUILTIN_POLICIES
+    validated = H.validate_traces(vcases, st)
     return evidence.finish(
         PID, tier, seed, st, t0,
         rule='%d server peers and %d client peers (kex/cipher/MAC list variants incl. gss-* names with "=", "+", "/", "@"; %d host-key '
@@ -230,7 +244,7 @@ def run(tier, seed):
              'per list; host-key size, CA size, CA type, modulus size); all %d built-in policies against a peer synthesised from the policy' % (
                  len(ps), len(cl), len(KEY_CONFIGS), GEX_SIZES, len(builtin_tasks())),
         assumptions=['policies are written to and read from real files', 'chained invocations share nothing but the file'],
-        exhaustive=True, extra={'peers': len(tasks)})
+        exhaustive=True, traces_validated=validated, extra={'peers': len(tasks)})
 
 
 def replay(path):
